@@ -91,6 +91,16 @@ func scalarLit(r *fw.Rng, i int) (lit, typ string) {
 // objLit builds an object literal with n fields (optionally one nested object).
 func objLit(r *fw.Rng, n int, nest bool) (lit string, fields []string) {
 	fields = pickN(r, fieldPool, n)
+	if n >= 4 && r.Bool() {
+		// names that are equal ignoring case (or after trimming digits): any order that is not total
+		// on the exact names leaves them in map order
+		fields[n-1] = strings.ToUpper(fields[0])
+		fields[n-2] = strings.ToUpper(fields[0][:1]) + fields[0][1:]
+		if r.Bool() {
+			fields[n-3] = fields[0] + "2"
+			fields[1] = fields[0] + "10"
+		}
+	}
 	parts := make([]string, 0, n)
 	for i, f := range fields {
 		if nest && i == n/2 {
@@ -622,6 +632,13 @@ func famTypeErr(r *fw.Rng, p Poison) Built {
 	b.f("    let b: %s = %s;\n", typ(fields, 1), lit(fields))        // one field type differs
 	b.f("    let c: %s = %s;\n", typ(fields[:n-1], -1), lit(fields)) // extra field
 	b.f("    let d: Rec = %s;\n", lit(pickN(r, fieldPool, n)))       // mostly different fields
+	// all expected fields plus several unexpected ones / several of the wrong type / several missing:
+	// whichever is named, it must be the same one every time
+	b.f("    let c2: %s = %s;\n", typ(fields[:n-2], -1), lit(fields))
+	b.f("    let c3: %s = %s;\n", typ(fields[:n-3], -1), lit(fields))
+	b.f("    let c4: %s = %s;\n", typ(fields[2:], -1), lit(fields))
+	b.f("    let c5: Rec = %s;\n", lit(fields[:n-3]))
+	b.f("    take(%s);\n", lit(append(append([]string{}, fields...), "extra_b", "extra_a", "extra_c")))
 	b.f("    take(%s);\n", lit(fields[1:]))
 	b.f("    let e = %s;\n    e.nonexistent;\n    e.%s.nope;\n", lit(fields), fields[0])
 	b.f("    let f: int = %s;\n", lit(fields))
